@@ -20,8 +20,11 @@ ASSUMPTIONS = [
 RULE = ("checksum/serialise: payload lengths 0..1500 and 65535, random and 0xFF/0xFE-heavy bytes (double carries), "
         "all 2-byte payloads in the thorough tier; request stream: 1..6 records of 23 bytes under whole / byte-wise / "
         "every 1-cut / random cuts; packets: replies and errors quoting requests (v4 options, v6 extension headers), "
-        "truncations at every length and byte mutations; non-trivial = not rejected by the first length test; "
-        "distinct = distinct input line")
+        "truncations at every length and byte mutations; Destination Unreachable with every code RFC 792/1122/1812 (0..15) "
+        "and RFC 4443/6550/8883 (0..8) define, quoting a request; through the real endpoint (CONNECT _icmp over TLS, "
+        "HTTP/1.1 and HTTP/2): forged errors of several codes for pending requests, an unsendable request (TTL 0, data "
+        "beyond the IPv4 limit, broadcast address, IPv6 without a route) followed by a sendable one, a request repeated "
+        "after its answer; non-trivial = not rejected by the first length test; distinct = distinct input line")
 
 
 def ref_checksum(bs):
@@ -175,7 +178,9 @@ def packet_cases(rng, thorough):
         # quoting something else
         other = g.ipv4_header(rng, 17, 8) + rng.bytes(8)
         pm(0, g.v4_error(rng, 3, 3, other), "v4-error-unrelated", {"none": True})
-        pm(0, g.v4_error(rng, 3, 9, g.ipv4_header(rng, 1, len(req)) + req), "v4-error-bad-code", {"reject": True})
+        # a code no RFC assigns to Destination Unreachable: nothing in the property says whether it is malformed, so
+        # only implementation and model are compared
+        pm(0, g.v4_error(rng, 3, rng.range(16, 255), g.ipv4_header(rng, 1, len(req)) + req), "v4-error-unassigned-code")
         req6 = g.echo(128, ident, seq, data)
         for ty, code in [(1, rng.below(7)), (2, 0), (3, rng.below(2)), (4, rng.below(3))]:
             exts = []
@@ -187,10 +192,29 @@ def packet_cases(rng, thorough):
             q = g.ipv6_header(rng, nxt_first, len(exts) + len(req6)) + exts + req6
             pm(1, g.v4_error(rng, ty, code, q), "v6-error-quoting",
                {"id": ident, "seq": seq, "data": data, "type": ty, "code": code})
+        pm(1, g.v4_error(rng, 1, rng.range(9, 255), g.ipv6_header(rng, 58, len(req6)) + req6), "v6-error-unassigned-code")
         # an extension header claiming more bytes than the packet holds (repaired panic)
         q = g.ipv6_header(rng, 0, 8) + [58, 200] + rng.bytes(6)
         pm(1, g.v4_error(rng, 1, 0, q), "corpus:v6-ext-overrun", {"none": True})
         sh(1, q, "corpus:v6-ext-overrun")
+    # Destination Unreachable with every code the RFCs define (v4: RFC 792 0..5, RFC 1122 6..12, RFC 1812 13..15;
+    # v6: RFC 4443 0..6, RFC 6550 7, RFC 8883 8), quoting a request as routers do (header + 8 bytes) and in full
+    for code in range(16):
+        for keep_all in (0, 1):
+            ident, seq, data = rng.below(65536), rng.below(65536), rng.bytes(rng.choice([8, 32, 56]))
+            req = g.echo(8, ident, seq, data)
+            keep = len(req) if keep_all else 8
+            q = g.ipv4_header(rng, 1, len(req), rng.choice([5, 5, 6])) + req[:keep]
+            pm(0, g.v4_error(rng, 3, code, q), "v4-unreachable-every-code",
+               {"id": ident, "seq": seq, "data": req[8:keep], "type": 3, "code": code})
+    for code in range(9):
+        for keep_all in (0, 1):
+            ident, seq, data = rng.below(65536), rng.below(65536), rng.bytes(rng.choice([8, 32, 56]))
+            req6 = g.echo(128, ident, seq, data)
+            keep = len(req6) if keep_all else 8
+            q = g.ipv6_header(rng, 58, len(req6)) + req6[:keep]
+            pm(1, g.v4_error(rng, 1, code, q), "v6-unreachable-every-code",
+               {"id": ident, "seq": seq, "data": req6[8:keep], "type": 1, "code": code})
     # every quoting error type x every IPv4 header length (options) x the quoted datagram cut 0..9 bytes after its header
     for ty, code in [(3, 1), (4, 0), (5, 1), (11, 0), (12, 0)]:
         for ihl in range(5, 16):
@@ -315,7 +339,9 @@ def judge(case, impl, model, spec, ctx):
                 out.append(("violation", "an unrelated packet was matched to an echo request"))
         else:
             if impl == "997":
-                out.append(("violation", "a reply / quoting error was rejected as malformed"))
+                out.append(("violation", "a reply / quoting error was rejected as malformed (ICMP%s type %d code %d for the echo request id %d "
+                                         "seq %d; it must be reported with that type and code)"
+                                         % ("v6" if case.meta["v6"] else "v4", exp["type"], exp["code"], exp["id"], exp["seq"])))
             else:
                 hd = untok(toks[0])
                 ids = untok(toks[1])
@@ -374,6 +400,19 @@ def live_cases(rng, thorough):
     mk([[T, 8, 1], [1, 0, 411, 2, 64], SILENT, d16, [5, 411, 2], [], [2, 0, 150], [3]], "live:reply-without-data")
     # (queue overflow is not driven live: whether the second answer finds the queue full depends on the
     #  scheduling of the listening task against the reading client; it is covered by the model theorems only)
+    # a request that cannot be sent (TTL 0: EINVAL; 255.255.255.255: EACCES; more data than an IPv4 packet holds:
+    # EMSGSIZE) is dropped, its waiter taken back, and the next request of the same client is served
+    for name, ttl, dst, size in [("ttl-0", 0, [127, 0, 0, 1], 8), ("broadcast", 64, [255, 255, 255, 255], 8),
+                                 ("data-65508", 64, [127, 0, 0, 1], 65508)]:
+        ident = rng.range(1000, 60000)
+        mk([[T, 8, 1], [1, 0, ident, 1, ttl], dst, rng.bytes(size), [3], [1, 0, ident, 2, 64], [127, 0, 0, 1], rng.bytes(8),
+            [2, 0, 300], [3]], "live:unsendable:" + name)
+    # a request answered at once and sent again 0.6 T later is still pending 0.6 T after that, although the deadline
+    # of its first sending has passed in between
+    T2 = 1000
+    ident = rng.range(1000, 60000)
+    mk([[T2, 8, 1], [1, 0, ident, 1, 64], [127, 0, 0, 1], [], [2, 0, 300], [4, 600], [1, 0, ident, 1, 64], SILENT, [],
+        [4, 600], [3], [5, ident, 1], [], [2, 0, 300], [3]], "live:resent-after-answer")
     # KNOWN FINDING: equal identifier/sequence and empty data from two clients
     mk([[T, 8, 2], [1, 0, 7, 1, 64], SILENT, [], [1, 1, 7, 1, 64], SILENT, [], [3], [5, 7, 1], [], [2, 0, 150],
         [2, 1, 150], [5, 7, 1], [], [2, 0, 150], [2, 1, 150], [3]], "live:known-shared-identifier")
@@ -398,12 +437,146 @@ def live_cases(rng, thorough):
     return out
 
 
+# ---------------------------------------------------------------- through the real endpoint (CONNECT _icmp)
+
+LO = [127, 0, 0, 1]
+LO16 = [0] * 12 + LO
+
+
+def forged_error(ty, code, ident, seq, dst):
+    """What a router / the destination answers: type, code, the request's IP header and its first 8 bytes (RFC 792)."""
+    quoted = [0x45, 0, 0, 28, 0, 1, 0, 0, 64, 1, 0, 0] + LO + list(dst) + g.echo(8, ident, seq, [])
+    p = [ty, code, 0, 0, 0, 0, 0, 0] + quoted
+    p[2:4] = g.be(g.cksum(p), 2)
+    return p
+
+
+def front_cases(rng, thorough):
+    """ops of c11_front plus, per read op, what the property says must be read there:
+    ("want", id, type, code, seq, address) | ("none",) | ("control", ...) = as want, but a miss only says that the
+    environment does not deliver such packets (the scenario is then skipped, not judged)."""
+    out = []
+    base = [20000 + 97 * rng.below(300)]
+
+    def ids():
+        base[0] += 1
+        return base[0], rng.below(65536)
+
+    def mk(proto, T, ops, reads, kind, clock=None):
+        l = line("c11_front", [[proto, T]] + ops)
+        out.append(Case(l, None, kind="live:front:" + kind, nontrivial=True, meta={"reads": reads, "clock_below": clock}))
+
+    T = 4000
+    protos = (1, 2)
+    # (1) errors of several codes for pending requests; each is reported once, with the forger's address, type and code
+    code_sets = [[13, 10], [9, 6, 15]] if not thorough else [[13, 10, 9], [6, 7, 8], [11, 12, 14, 15], [0, 2, 3, 4, 5]]
+    for k, codes in enumerate(code_sets):
+        proto = protos[k % 2]
+        ops, reads = [], []
+        pend = [ids() for _ in range(len(codes) + 1)]
+        for (i, q) in pend:
+            ops += [[1, i, q, 64, 8], SILENT]
+        ops += [[4, 250]]
+        # control: host unreachable (code 1) for the first request
+        ops += [[5], forged_error(3, 1, pend[0][0], pend[0][1], SILENT), [2, 2000]]
+        reads.append(("control", pend[0][0], 3, 1, pend[0][1], LO16))
+        for c, (i, q) in zip(codes, pend[1:]):
+            ops += [[5], forged_error(3, c, i, q, SILENT), [2, 2000]]
+            reads.append(("want", i, 3, c, q, LO16))
+        # the last one once more: answered requests are not reported again
+        ops += [[5], forged_error(3, codes[-1], pend[-1][0], pend[-1][1], SILENT), [2, 400]]
+        reads.append(("none",))
+        mk(proto, T, ops, reads, "unreachable-codes")
+    # (2) a request the endpoint cannot send, then one it can: the stream goes on
+    unsendable = [("ttl-0", 0, 8, LO), ("data-65508", 64, 65508, LO), ("data-65535", 64, 65535, LO),
+                  ("broadcast", 64, 8, [255, 255, 255, 255]), ("v6-no-route", 64, 8, [0x20, 1, 0xd, 0xb8] + [0] * 11 + [1])]
+    for k, (name, ttl, size, dst) in enumerate(unsendable):
+        for proto in (protos if thorough else (protos[k % 2],)):
+            a, b, c = ids(), ids(), ids()
+            ops = [[1, a[0], a[1], 64, 8], LO, [2, 2000],
+                   [1, b[0], b[1], ttl, size], dst, [4, 200],
+                   [1, c[0], c[1], 64, 8], LO, [2, 2000]]
+            reads = [("control", a[0], 0, 0, a[1], LO16), ("want", c[0], 0, 0, c[1], LO16)]
+            mk(proto, T, ops, reads, "unsendable-then-sendable:" + name)
+    # (3) a request answered at once and sent again (same identifier and sequence number, as a client that wraps its
+    # sequence numbers does) 0.6 T later: 0.6 T after that it is still pending, its answer is reported
+    T3 = 1500
+    for proto in (protos if thorough else (protos[0],)):
+        a = ids()
+        ops = [[1, a[0], a[1], 64, 0], LO, [2, 1000], [4, int(0.6 * T3)],
+               [1, a[0], a[1], 64, 0], SILENT, [4, int(0.6 * T3)], [6],
+               [5], g.echo(0, a[0], a[1], []), [2, 400]]
+        reads = [("control", a[0], 0, 0, a[1], LO16), ("want", a[0], 0, 0, a[1], LO16)]
+        mk(proto, T3, ops, reads, "repeated-after-answer", clock=T3 - 300)
+    return out
+
+
+def parse_front(impl):
+    """-> (status, reads [(got, id, type, code, seq, address) | (0, ended)], clocks [ms])"""
+    toks = [untok(t) for t in impl.split()]
+    status, reads, clocks = toks[0][0], [], []
+    i = 1
+    while i < len(toks):
+        t = toks[i]
+        if t[0] == 2:
+            reads.append((1, t[2], t[3], t[4], t[5], toks[i + 1]) if t[1] == 1 else (0, t[2]))
+            i += 2
+        else:
+            if t[0] == 6:
+                clocks.append(t[1])
+            i += 1
+    return status, reads, clocks
+
+
+def judge_front(case, impl, ctx):
+    kind = case.kind
+    if impl in ("996", "995") or not impl:
+        ctx.setdefault("skipped_env", []).append(kind)
+        return []
+    if impl == "999":
+        return [("violation", "the endpoint panicked in an ICMP scenario (%s)" % kind)]
+    status, reads, clocks = parse_front(impl)
+    want = case.meta["reads"]
+    if status != 200 or len(reads) != len(want):
+        ctx.setdefault("skipped_env", []).append(kind)   # CONNECT _icmp itself is C10's business
+        return []
+    lim = case.meta.get("clock_below")
+    if lim is not None and (not clocks or max(clocks) >= lim):
+        ctx.setdefault("skipped_env", []).append(kind)   # the harness was held up: the request may rightly have expired
+        return []
+    for w, r in zip(want, reads):
+        if w[0] == "none":
+            if r[0] == 1:
+                return [("violation", "an ICMP error for a request that was already answered was reported again (id %d seq %d type %d "
+                                      "code %d)" % (r[1], r[4], r[2], r[3]))]
+            continue
+        exp = (1, w[1], w[2], w[3], w[4], list(w[5]))
+        if tuple(r) == exp:
+            continue
+        if w[0] == "control":
+            ctx.setdefault("skipped_env", []).append(kind)
+            return []
+        what = ("the stream was closed by the endpoint" if r == (0, 1) else "nothing was reported" if r[0] == 0
+                else "reported was id %d type %d code %d seq %d from %s" % (r[1], r[2], r[3], r[4], r[5]))
+        if kind.startswith("live:front:unreachable-codes"):
+            return [("violation", "a Destination Unreachable (code %d) quoting the pending echo request id %d seq %d was sent to the endpoint "
+                                  "by 127.0.0.1, the client must read one 7.4 record with that address, type 3 and code %d: %s"
+                                  % (w[3], w[1], w[4], w[3], what))]
+        if kind.startswith("live:front:unsendable"):
+            return [("violation", "after a request the endpoint cannot send (%s) the next echo request on the same stream (id %d seq %d to "
+                                  "127.0.0.1) must be sent and its reply reported: %s" % (kind.rsplit(":", 1)[1], w[1], w[4], what))]
+        return [("violation", "an echo request (id %d seq %d) that was answered and then sent again was %d ms old, of a request timeout of "
+                              "%d ms, when the reply to it arrived; that reply must be reported: %s"
+                              % (w[1], w[4], max(clocks), lim + 300, what))]
+    return []
+
+
 _gen_pure = gen_cases
 
 
 def gen_cases(rng, ctx):  # noqa: F811
     thorough = ctx["tier"] == "thorough" or ctx.get("widened")
-    return _gen_pure(rng, ctx) + live_cases(rng, thorough)
+    return _gen_pure(rng, ctx) + live_cases(rng, thorough) + front_cases(rng, thorough)
 
 
 _judge_pure = judge
@@ -412,11 +585,16 @@ _judge_pure = judge
 def judge(case, impl, model, spec, ctx):  # noqa: F811
     if not case.kind.startswith("live:"):
         return _judge_pure(case, impl, model, spec, ctx)
+    if case.kind.startswith("live:front:"):
+        return judge_front(case, impl, ctx)
     if impl == "996":
         ctx.setdefault("skipped_env", []).append(case.kind)
         return []
     if impl == "999":
         return [("violation", "the ICMP forwarder panicked in a live loopback scenario")]
+    if "1,2" in impl.split():
+        return [("violation", "the ICMP sink failed on a request it could not send (%s): datagram_pipe ends the client's whole ICMP "
+                              "stream on that error, the requests that follow on the stream are never sent" % case.kind)]
     if case.kind == "live:known-shared-identifier":
         toks = impl.split()
         # recv results are the groups starting with 2,...: [c0, c1, c0, c1]
